@@ -228,6 +228,37 @@ pub fn build_src(s: &Src, env: &Env) -> Bx {
     Src::FutureReady(v) => bx(
       observable::from_future(CountingFut { v: Some(v.clone()), cn: env.counters.clone() }, VSched).on_error_map(inf as InfFn),
     ),
+    Src::CountingIter(n) => {
+      let cn = env.counters.clone();
+      let it = (0..*n as i64).map(move |i| {
+        lock!(cn).iter_pulls += 1;
+        V::I(i)
+      });
+      bx(observable::from_iter(it).on_error_map(inf as InfFn))
+    }
+    Src::CountingStream(n) => {
+      let st = CountingStream { next: 0, n: *n as i64, cn: env.counters.clone() };
+      bx(observable::from_stream(st, VSched).on_error_map(inf as InfFn))
+    }
+  }
+}
+
+/// a stream of n ready items that counts its polls
+pub struct CountingStream {
+  next: i64,
+  n: i64,
+  cn: Sh<Counters>,
+}
+impl futures::Stream for CountingStream {
+  type Item = V;
+  fn poll_next(mut self: std::pin::Pin<&mut Self>, _: &mut std::task::Context<'_>) -> std::task::Poll<Option<V>> {
+    lock!(self.cn).stream_polls += 1;
+    if self.next < self.n {
+      self.next += 1;
+      std::task::Poll::Ready(Some(V::I(self.next - 1)))
+    } else {
+      std::task::Poll::Ready(None)
+    }
   }
 }
 
@@ -628,10 +659,13 @@ impl<S> ObservableExt<V, E> for TrackOp<S> {}
 #[derive(Clone)]
 pub struct Probe {
   pub log: Sh<Vec<Rec>>,
+  /// when set, the counters are copied into `snap` the moment a terminal arrives
+  pub cn: Option<Sh<Counters>>,
+  pub snap: Sh<Option<Counters>>,
 }
 impl Probe {
   pub fn new() -> Probe {
-    Probe { log: sh(Vec::new()) }
+    Probe { log: sh(Vec::new()), cn: None, snap: sh(None) }
   }
   pub fn events(&self) -> Vec<Ev> {
     lock!(self.log).iter().map(|r| r.ev.clone()).collect()
@@ -640,6 +674,13 @@ impl Probe {
     lock!(self.log).clone()
   }
   fn push(&self, ev: Ev) {
+    if ev.is_terminal() {
+      if let Some(cn) = &self.cn {
+        let mut c = lock!(cn).clone();
+        c.clock_firings = crate::vtime::total_firings();
+        *lock!(self.snap) = Some(c);
+      }
+    }
     let r = Rec { ev, step: crate::stamp::get(), vt: as_ticks(crate::vtime::now()) };
     lock!(self.log).push(r);
   }
@@ -726,7 +767,8 @@ pub fn exec(case: &PCase, sample_closed: bool) -> Trace {
   crate::stamp::set(crate::stamp::AT_SUBSCRIBE);
   let env = Env::new(case.kinds.len().max(1));
   let p = build(&case.node, &env);
-  let probe = Probe::new();
+  let mut probe = Probe::new();
+  probe.cn = Some(env.counters.clone());
   let mut sub: Option<BSub> = Some(p.actual_subscribe(probe.clone()));
   let mut guard: Option<SubscriptionGuard<BSub>> = None;
   let mut tr = Trace::default();
@@ -793,7 +835,10 @@ pub fn exec(case: &PCase, sample_closed: bool) -> Trace {
   }
   // let everything that is still scheduled run (bounded: periodic sources never end)
   crate::stamp::set(case.script.len());
-  tr.quiescent = vtime::drain(12);
+  let (q, firings) = vtime::drain_count(12);
+  tr.quiescent = q;
+  tr.drain_firings = firings;
+  tr.counters_at_terminal = lock!(probe.snap).clone();
   if sample_closed {
     if let Some(s) = &sub {
       tr.closed.push((case.script.len(), s.is_closed()));
@@ -801,6 +846,7 @@ pub fn exec(case: &PCase, sample_closed: bool) -> Trace {
   }
   tr.recs = probe.recs();
   tr.counters = lock!(env.counters).clone();
+  tr.counters.clock_firings = vtime::total_firings();
   tr.live_tasks_end = vtime::live_tasks();
   tr.pending_timers_end = vtime::pending_timers();
   tr.status_flags = lock!(env.statuses).iter().map(|s| (s.is_completed(), s.error_occur())).collect();
@@ -1013,5 +1059,92 @@ pub fn exec_sources(srcs: &[TSrc], script: &[Step], mode: SchedMode) -> Vec<SrcT
     .map(|(p, s, req)| SrcTrace { recs: p.recs(), stats: lock!(s).clone(), requested_at_subscribe: req, step_times: step_times.clone() })
     .collect();
   drop(subs);
+  out
+}
+
+// ------------------------------------------------------- composite histories (C17b)
+
+#[derive(Default, Clone, Debug)]
+pub struct ChildState {
+  pub unsubs: usize,
+  pub closed: bool,
+}
+pub struct ChildSub(Sh<ChildState>);
+impl Subscription for ChildSub {
+  fn unsubscribe(self) {
+    let mut s = lock!(self.0);
+    s.unsubs += 1;
+    s.closed = true;
+  }
+  fn is_closed(&self) -> bool {
+    lock!(self.0).closed
+  }
+}
+
+#[derive(Clone, Debug)]
+pub enum CObs {
+  /// (handle, result)
+  IsClosed(usize, bool),
+  /// unsubscribe counts of every child after the step
+  Children(Vec<usize>),
+}
+
+/// run a history on a real MultiSubscription(/Threads); returns what was observed after every step
+pub fn exec_composite(ops: &[COp]) -> Vec<(usize, CObs)> {
+  let mut handles: Vec<Option<MultiSub>> = vec![Some(MultiSub::default())];
+  let mut children: Vec<Sh<ChildState>> = vec![];
+  let mut out = vec![];
+  for (k, op) in ops.iter().enumerate() {
+    match op {
+      COp::Append => {
+        // through the first live handle
+        if let Some(h) = handles.iter_mut().flatten().next() {
+          let st = sh(ChildState::default());
+          children.push(st.clone());
+          h.append(BoxSub::new(ChildSub(st)));
+        }
+      }
+      COp::CloneHandle(i) => {
+        let live: Vec<usize> = handles.iter().enumerate().filter(|(_, h)| h.is_some()).map(|(i, _)| i).collect();
+        if !live.is_empty() {
+          let c = handles[live[*i % live.len()]].as_ref().unwrap().clone();
+          handles.push(Some(c));
+        }
+      }
+      COp::Unsub(i) => {
+        let live: Vec<usize> = handles.iter().enumerate().filter(|(_, h)| h.is_some()).map(|(i, _)| i).collect();
+        if live.len() > 1 || (live.len() == 1 && handles.len() == 1) {
+          // keep at least one handle alive to observe is_closed() afterwards: clone first when it is the last one
+          let idx = live[*i % live.len()];
+          if live.len() == 1 {
+            let c = handles[idx].as_ref().unwrap().clone();
+            handles.push(Some(c));
+          }
+          handles[idx].take().unwrap().unsubscribe();
+        }
+      }
+      COp::IsClosed(i) => {
+        let live: Vec<usize> = handles.iter().enumerate().filter(|(_, h)| h.is_some()).map(|(i, _)| i).collect();
+        if !live.is_empty() {
+          let idx = live[*i % live.len()];
+          out.push((k, CObs::IsClosed(idx, handles[idx].as_ref().unwrap().is_closed())));
+        }
+      }
+      COp::CloseChild(c) => {
+        if !children.is_empty() {
+          let n = children.len();
+          lock!(children[*c % n]).closed = true;
+        }
+      }
+      COp::Retain(i) => {
+        let live: Vec<usize> = handles.iter().enumerate().filter(|(_, h)| h.is_some()).map(|(i, _)| i).collect();
+        if !live.is_empty() {
+          let idx = live[*i % live.len()];
+          handles[idx].as_mut().unwrap().retain();
+        }
+      }
+    }
+    out.push((k, CObs::Children(children.iter().map(|c| lock!(c).unsubs).collect())));
+  }
   out
 }
